@@ -373,7 +373,6 @@ func runExecutorCase(rt *rapid.T, rec *simkit.Recorder, backend string, newRig f
 		Action:       action,
 	}, updates)
 
-
 	if produced != nil {
 		sc.Produced = produced.render()
 	}
